@@ -322,5 +322,5 @@ def correspondence(ctx, n_hist: int, n_reuse: int, oracles):
             ctx.violation("reuse:second run differs from a fresh instance", "a second optimize() on a used instance differs from a fresh instance's run", {**m, "reused": obs2, "fresh": fresh2})
         items.append(f"Reuse {cfg_lit(h1)} {pops_lit(h1)} {avgs_lit(h1)} {cfg_lit(h2)} {'MIN' if h2['minmax'] == 'min' else 'MAX'} {pops_lit(h2)} {avgs_lit(h2)} {expect_lit(obs2)}")
         metas.append(m)
-    res = coq.run_cases(ctx.pid + "s", PREAMBLE, items, "check", shard=150)
+    res = coq.run_cases(ctx.pid + "s", PREAMBLE, items, "check", shard=60)
     return items, metas, res, stop_kinds
